@@ -16,9 +16,12 @@ Definition proj_kp (k : option kp) : list N :=
   match k with Some x => [1; k_local x; k_remote x; b2n (k_init x)] | None => [0; 0; 0; 0] end.
 Definition ts_words (v : N) : list N := [v / 2^64; (v / 2^32) mod 2^32; v mod 2^32].
 Definition words_ts (a b c : N) : N := a * 2^64 + b * 2^32 + c.
+(* a peer that is not configured (any more) is not visible through IpcGet / VerifPeer: all zero *)
 Definition proj_peer (pid : N) (P : peer) : list N :=
-  [pid; hs_state P; hs_local P; hs_remote P] ++ ts_words (last_ts P) ++
-  [endpoint P; rx P; tx P; lh P] ++ proj_kp (kprev P) ++ proj_kp (kcur P) ++ proj_kp (knext P).
+  if p_conf P then
+    [pid; hs_state P; hs_local P; hs_remote P] ++ ts_words (last_ts P) ++
+    [endpoint P; rx P; tx P; lh P] ++ proj_kp (kprev P) ++ proj_kp (kcur P) ++ proj_kp (knext P)
+  else pid :: repeat 0 22.
 Definition proj (cfg : list (N * N * N)) (st : state) : list (list N) :=
   map (fun c => proj_peer (fst (fst c)) (peers st (fst (fst c)))) cfg.
 
@@ -35,7 +38,7 @@ Definition obs_init_ts (o : list out) : option N :=
    initiation it is pinned down (up to whitening) by the observed timestamp. *)
 Definition eff_now (c : cstep) : N :=
   match e_body (c_ev c), obs_init_ts (o_out (c_obs c)) with
-  | BTun _ _, Some ts | BInitiate _ _, Some ts => N.max (e_now (c_ev c)) (unstamp (of_val ts))
+  | BTun _ _, Some ts | BInitiate _ _, Some ts | BRemoveRace _, Some ts => N.max (e_now (c_ev c)) (unstamp (of_val ts))
   | _, _ => e_now (c_ev c)
   end.
 
@@ -133,7 +136,8 @@ Definition check_cases (ks : list case) (ts : list tcase) (az : list acase) : li
    15 tun -> transport      16 shift                   17 restart
    18 ambiguous flood steps 19 tun for unknown peer  20 valid MAC1 under load -> cookie reply
    21 under-load toggles    22 dropped at gate / MAC1 while under load
-   23 concurrent SendHandshakeInitiation burst -> one initiation   24 burst blocked by spacing *)
+   23 concurrent SendHandshakeInitiation burst -> one initiation   24 burst blocked by spacing
+   25 peer removed with a retransmit callback in flight *)
 Definition classify (st : state) (e : event) : nat :=
   match e_body e with
   | BMsg src m =>
@@ -171,6 +175,7 @@ Definition classify (st : state) (e : event) : nat :=
   | BShift _ _ => 16%nat
   | BRestart => 17%nat
   | BLoad _ => 21%nat
+  | BRemoveRace _ => 25%nat
   | BInitiate p _ => if e_now e - last_sent (peers st p) <? RekeyTimeout then 24%nat else 23%nat
   end.
 
@@ -191,7 +196,7 @@ Fixpoint stats_steps (cfg : list (N * N * N)) (st : state) (cs : list cstep) (h 
   end.
 
 Definition stats (ks : list case) : list N :=
-  fold_left (fun h k => stats_steps (c_cfg k) (init (c_cfg k) (c_now0 k)) (c_steps k) h) ks (repeat 0 25).
+  fold_left (fun h k => stats_steps (c_cfg k) (init (c_cfg k) (c_now0 k)) (c_steps k) h) ks (repeat 0 26).
 
 (* ------------------------------------------- builders used by case files *)
 (* Every number in a generated case file is a primitive-int literal. *)
@@ -224,6 +229,7 @@ Definition bt (p inner : Uint63.int) : body := BTun (I p) (I inner).
 Definition bs (p d : Uint63.int) : body := BShift (I p) (I d).
 Definition br : body := BRestart.
 Definition bl (on : bool) : body := BLoad on.
+Definition brr (p : Uint63.int) : body := BRemoveRace (I p).
 Definition bi (p k : Uint63.int) : body := BInitiate (I p) (I k).
 Definition cs (lo hi oidx : Uint63.int) (b : body) (o : obs) : cstep :=
   {| c_ev := {| e_now := I lo; e_oidx := I oidx; e_body := b |}; c_hi := I hi; c_obs := o |}.
